@@ -539,7 +539,9 @@ Qed.
 
 Lemma stale_mono older ev t : clock_le older (fst (fst ev)) -> stale_at older t -> stale_at (ev :: older) t.
 Proof using pruning.
-  destruct ev as [[now h] r]. destruct older as [|[[t0 h0] r0] o]; cbn; [tauto|]. lia.
+  destruct ev as [[now h] r]. destruct older as [|[[t0 h0] r0] o]; cbn [clock_le stale_at fst].
+  - intros _ [].
+  - clear. intros H1 H2. lia.
 Qed.
 
 Lemma inv_step now h r older s : Inv older s -> clock_le older now ->
@@ -561,12 +563,12 @@ Proof.
     + intros N b t H. cbn [live] in H. rewrite lookup_query by auto.
       destruct (I3 _ _ _ H) as [A|[A B]]; rewrite A.
       * destruct (text_eqb name N && (t <? now - pruning)) eqn:E; [right|left; reflexivity].
-        split; [reflexivity|]. apply andb_prop in E as [_ E]. cbn [stale_at]. lia.
+        split; [reflexivity|]. apply andb_prop in E as [_ E]. cbn [stale_at]. apply Z.ltb_lt in E. exact E.
       * right. split; [reflexivity|apply SM; exact B].
   - (* register *) split; [|split].
     + now apply wf_register.
     + intros N b t. rewrite lookup_register. cbn [live].
-      destruct (named N names && aeq (h, port) b); [tauto|apply I2].
+      destruct (named N names && aeq (h, port) b); [intros E; exact E|apply I2].
     + intros N b t. rewrite lookup_register. cbn [live].
       destruct (named N names && aeq (h, port) b); [intros [= <-]; left; reflexivity|].
       intros H. destruct (I3 _ _ _ H) as [A|[A B]]; [left; exact A|right; split; [exact A|apply SM; exact B]].
@@ -614,7 +616,7 @@ Proof.
   cbn zeta. split; [|split; [exact Q2|]].
   - intros b. rewrite Q1. split; intros (t & A & B); exists t; split; auto.
     destruct (I3 _ _ _ A) as [A'|[A' S]]; auto.
-    exfalso. destruct rh as [|[[t0 h0] r0] o]; cbn in S, C; [auto|lia].
+    exfalso. clear - S C B. destruct rh as [|[[t0 h0] r0] o]; cbn in S, C; [auto|lia].
   - exists l. repeat split; auto. eapply Forall_impl; [|exact Q5]. intros x. apply I2.
 Qed.
 
